@@ -15,6 +15,7 @@ pub mod c09;
 pub mod c10;
 pub mod c11;
 pub mod c12;
+pub mod c15;
 pub mod c16;
 pub mod c17;
 pub mod c18;
@@ -45,6 +46,7 @@ pub fn monitors() -> Vec<Monitor> {
         Monitor { id: "C10", case: c10::case, exhaustive: None },
         Monitor { id: "C11", case: c11::case, exhaustive: None },
         Monitor { id: "C12", case: c12::case, exhaustive: None },
+        Monitor { id: "C15", case: c15::case, exhaustive: None },
         Monitor { id: "C16", case: c16::case, exhaustive: None },
         Monitor { id: "C17", case: c17::case, exhaustive: None },
         Monitor { id: "C18", case: c18::case, exhaustive: None },
